@@ -57,6 +57,10 @@ THEOREMS = [
     "OllamaVerif.C06.refines_step_total",
     "OllamaVerif.C06.refines_total_nonvacuous",
     "OllamaVerif.C06.specStepT_perm",
+    "OllamaVerif.C06.window_exact_append_only",
+    "OllamaVerif.C06.runS_visible_eq_runI",
+    "OllamaVerif.C06.specSlide_invisible_of_le",
+    "OllamaVerif.C06.window_exact_nonvacuous",
     "OllamaVerif.C06.startForward_not_ok_abs",
     "OllamaVerif.C06.history_exposes_spec",
     "OllamaVerif.C06.refines_all_histories",
